@@ -131,9 +131,9 @@ def do_pack(fs, root, gdf, parts, npartitions, p, tempdir, compression, overwrit
 PART_RE = re.compile(r"^part\.(\d+)\.parquet$")
 
 
-def inspect_tree(root):
+def inspect_tree(root, name="ds"):
     """The directory tree as the OS sees it (not through SimFS)."""
-    ds = os.path.join(root, "ds")
+    ds = os.path.join(root, name)
     out = {"ds_exists": os.path.isdir(ds), "files": [], "dirs": [], "tmp": [], "other": []}
     if out["ds_exists"]:
         for name in sorted(os.listdir(ds)):
@@ -146,15 +146,15 @@ def inspect_tree(root):
     return out
 
 
-def read_dataset(root):
+def read_dataset(root, name="ds"):
     """Logical content of the stored dataset, read with a plain local filesystem."""
     import pyarrow.parquet as pq
     from fsspec.implementations.local import LocalFileSystem
 
     from spatialpandas.io import read_parquet
-    ds = os.path.join(root, "ds")
+    ds = os.path.join(root, name)
     lfs = LocalFileSystem()
-    tree = inspect_tree(root)
+    tree = inspect_tree(root, name)
     parts = {}
     for name in tree["files"]:
         m = PART_RE.match(name)
